@@ -6,6 +6,7 @@ package dtlcp
 // C17c: a handshake gives the same result whatever path MTU either side uses.
 
 import (
+	"strings"
 	"bytes"
 	"encoding/json"
 	"fmt"
@@ -86,6 +87,9 @@ type c15Case struct {
 	// PrePMTU != 0: the configurations were first used for a connection with this path MTU; the
 	// measured connection runs on clones of them whose PMTU was then set to CPMTU / SPMTU
 	PrePMTU int `json:"prepmtu,omitempty"`
+	// ListenPMTU != 0: the server is created with a listener configuration whose path MTU is this value
+	// (-1: unset) and whose GetConfigForClient returns the configuration with SPMTU, which is then in force
+	ListenPMTU int `json:"listenpmtu,omitempty"`
 }
 
 func c15Run(c c15Case) (sig, msg string, known string) {
@@ -115,6 +119,23 @@ func c15Run(c c15Case) (sig, msg string, known string) {
 	}
 	sendPMTU := pm[c.Dir]
 	max := c15MaxPayload(c.Suite, sendPMTU)
+	hsPM := pm // bound for datagrams that are not the measured application data
+	runScfg := scfg
+	if c.ListenPMTU != 0 {
+		l, inner := scfg.Clone(), scfg
+		l.PMTU = c.ListenPMTU
+		if l.PMTU < 0 {
+			l.PMTU = 0
+		}
+		l.GetConfigForClient = func(*ClientHelloInfo) (*Config, error) { return inner, nil }
+		runScfg = l
+		// the first server datagrams leave before the per-client configuration is known
+		if lp := l.PMTU; lp <= 0 && hsPM[1] < 1400 {
+			hsPM[1] = 1400
+		} else if lp > hsPM[1] {
+			hsPM[1] = lp
+		}
+	}
 	var payloads [][]byte
 	for i, s := range c.Sends {
 		payloads = append(payloads, c01Payload(s.Size, byte(i+1)))
@@ -222,7 +243,7 @@ func c15Run(c c15Case) (sig, msg string, known string) {
 	} else {
 		opt.CliAct, opt.SrvAct = rcv, send
 	}
-	r := vfRunPair(ccfg, scfg, opt)
+	r := vfRunPair(ccfg, runScfg, opt)
 	if r.CPanic != "" || r.SPanic != "" {
 		return "panic", r.CPanic + r.SPanic, ""
 	}
@@ -242,7 +263,11 @@ func c15Run(c c15Case) (sig, msg string, known string) {
 	// else is wrong with the case, so that the application-data clauses are still examined.
 	var k3sig, k3msg string
 	for i, s := range sent {
-		if len(s.Data) > pm[s.From] {
+		limit := hsPM[s.From]
+		if i >= appStart && s.From == c.Dir {
+			limit = pm[s.From]
+		}
+		if len(s.Data) > limit {
 			kind := "handshake"
 			k := "K3"
 			if i >= appStart && s.From == c.Dir {
@@ -436,6 +461,12 @@ func TestVF_C15(t *testing.T) {
 		}
 		c := c15Case{Suite: suite, CPMTU: pm("cpmtu"), SPMTU: pm("spmtu"), Dir: rapid.IntRange(0, 1).Draw(t, "dir"), LoseFlight: rapid.IntRange(0, 3).Draw(t, "lose") == 0,
 			RBuf: rapid.SampledFrom([]int{0, 0, 1, 7, 100, 700}).Draw(t, "rbuf"), PrePMTU: rapid.SampledFrom([]int{0, 0, 0, -1, 1400, 600, 3000}).Draw(t, "prepmtu")}
+		if rapid.IntRange(0, 3).Draw(t, "listen") == 0 {
+			c.ListenPMTU = rapid.SampledFrom([]int{-1, 1400, 3000, 600, 300}).Draw(t, "listenpmtu")
+			if c.ListenPMTU > 0 && c.ListenPMTU < min {
+				c.ListenPMTU = min
+			}
+		}
 		sp := c.CPMTU
 		if c.Dir == 1 {
 			sp = c.SPMTU
@@ -481,16 +512,47 @@ type c17GridCase struct {
 	Suite        uint16 `json:"suite"`
 	CPMTU, SPMTU int
 	ClientAuth   bool `json:"auth"`
+	// Lose: one handshake datagram is lost or duplicated (the same fault is applied to a run with the
+	// default path MTU: the outcome must not differ)
+	Lose *vfFault `json:"lose,omitempty"`
 }
 
 func c17GridRun(c c17GridCase) (sig, msg, known string) {
+	if c.Lose != nil && (c.CPMTU != 0 || c.SPMTU != 0) {
+		d := c
+		d.CPMTU, d.SPMTU = 0, 0
+		if s, _, _ := c17GridRun(d); s != "" {
+			return "", "", "default-fails-too" // not a matter of the path MTU
+		}
+	}
 	p := vfGetPKI()
 	ccfg, scfg := vfBaseConfigs(c.Suite, c.ClientAuth)
 	ccfg.PMTU, scfg.PMTU = c.CPMTU, c.SPMTU
 	ccfg.NextProtos, scfg.NextProtos = []string{"h2"}, []string{"h2"}
 	cc, sc := vfNewCapCache(4), vfNewCapCache(4)
 	ccfg.SessionCache, scfg.SessionCache = cc, sc
-	r := vfRunPair(ccfg, scfg, vfPairOpt{
+	var faults []vfFault
+	if c.Lose != nil {
+		faults = []vfFault{*c.Lose}
+	}
+	r := vfRunPair(ccfg, scfg, vfPairOpt{Faults: faults,
+		// the fault touches the hello exchange only (ClientHello, HelloVerifyRequest and their
+		// retransmissions): a loss there is recovered at the default path MTU, while a partial loss of a later
+		// flight is the listed finding F11 of C19 at any path MTU
+		Prepare: func(sim *vfDSim, _, _ *Conn) {
+			sim.faultable = func(d []byte) bool {
+				ct := c19Content(d)
+				if ct == "" {
+					return false
+				}
+				for _, p := range strings.Split(ct, "+") {
+					if p != "hs1" && p != "hs3" {
+						return false
+					}
+				}
+				return true
+			}
+		},
 		CliAct: func(cn *Conn) error {
 			if err := vfSendAll(cn, []byte("ping")); err != nil {
 				return err
@@ -518,6 +580,9 @@ func c17GridRun(c c17GridCase) (sig, msg, known string) {
 	if r.CS.CipherSuite != c.Suite || r.SS.CipherSuite != c.Suite || r.CS.NegotiatedProtocol != "h2" || r.SS.NegotiatedProtocol != "h2" || r.CS.DidResume || r.SS.DidResume {
 		return "pmtu-changes-negotiation", "negotiated parameters depend on the path MTU", ""
 	}
+	if c.Lose != nil {
+		return "", "", "" // with retransmissions on the wire the transcript analysis does not apply
+	}
 	// Finished values on the wire = independent PRF over the unfragmented transcript
 	_, s, m := c04Analyze(r, c04Case{Suite: c.Suite}, false, nil, cc, sc, p.SrvEnc.PrivateKey.(*sm2.PrivateKey), nil, nil, nil, c04Opt{SkipApp: true})
 	if s != "" {
@@ -527,7 +592,7 @@ func c17GridRun(c c17GridCase) (sig, msg, known string) {
 }
 
 func TestVF_C17_Grid(t *testing.T) {
-	rec := vfRec("C17", "C17c-pmtu-grid", "handshakes over a grid of (client path MTU, server path MTU) from the smallest workable value upward, four suites, with and without client authentication; oracle: completion, same negotiated parameters, data flows, and the Finished values on the wire equal the independent PRF over the unfragmented transcript; non-trivial = a path MTU that forces fragmentation; distinct = the case")
+	rec := vfRec("C17", "C17c-pmtu-grid", "handshakes over a grid of (client path MTU, server path MTU) from the smallest workable value upward, four suites, with and without client authentication, and with one lost or duplicated handshake datagram (outcome compared with the same fault at the default path MTU); oracle: completion, same negotiated parameters, data flows, and the Finished values on the wire equal the independent PRF over the unfragmented transcript; non-trivial = a path MTU that forces fragmentation; distinct = the case")
 	idx := 0
 	for _, suite := range vfSuites {
 		min := c15Smallest(suite)
@@ -558,6 +623,39 @@ func TestVF_C17_Grid(t *testing.T) {
 					rec.Violation(sig, c, "%s", msg)
 				}
 				rec.Eval((a != 0 && a < 1200) || (b != 0 && b < 1200), c, fmt.Sprintf("suite:%04x", suite))
+			}
+		}
+	}
+	// one lost or duplicated handshake datagram at path MTUs that fragment the hellos
+	for _, suite := range vfSuites {
+		min := c15Smallest(suite)
+		if min == 0 {
+			continue
+		}
+		for _, v := range []int{min, min + 5, 80, 96, 110, 128, 200} {
+			if v < min {
+				continue
+			}
+			for _, ab := range [][2]int{{v, 0}, {v, v}, {0, v}} {
+				for dir := 0; dir < 2; dir++ {
+					for nth := 0; nth < 4; nth++ {
+						for _, kind := range []string{"drop", "dup"} {
+							idx++
+							if !vfMine(idx) {
+								continue
+							}
+							c := c17GridCase{Suite: suite, CPMTU: ab[0], SPMTU: ab[1], ClientAuth: idx%2 == 0, Lose: &vfFault{Kind: kind, Dir: dir, Nth: nth}}
+							sig, msg, known := c17GridRun(c)
+							if sig != "" {
+								rec.Violation(sig, c, "%s", msg)
+							}
+							if known != "" {
+								rec.Excluded(known)
+							}
+							rec.Eval(known == "", c, "lose:"+kind)
+						}
+					}
+				}
 			}
 		}
 	}
